@@ -179,7 +179,7 @@ CHECKS = {
             'workers, bind() calls from the strace record, connect() probes',
             'Real daemon with managed inet/unix/so_reuseport sockets and probe workers that dump argv and '
             'descriptors, over 6-10 worker generations driven by SIGKILL, restart, reload, incr, decr, reloadconfig '
-            '(unchanged file / edited watcher section) and periods in which process creation fails. stdin_socket watchers, also inetd-style with the same socket\'s descriptor number on the command line.',
+            '(unchanged file / edited watcher section) and periods in which process creation fails. stdin_socket watchers, also inetd-style with the same socket\'s descriptor number on the command line. `statsd = True` daemons whose circusd-stats worker (it inherits every managed socket) is restarted, sent SIGTERM, stopped and started between the generations.',
             'so_reuseport sockets are per-worker by design; wall clock only ever makes a case inconclusive.'),
     'C08': ('LIVE', 'exploration',
             'runtime monitoring of a real circusd under strace: exit status, /proc children (pid,starttime), '
